@@ -6,6 +6,9 @@ ALL = ["C%02d" % i for i in range(1, 20)]
 
 # id -> (level category, technique, level text, level note, design ref)
 CHECKS = {
+ "C02": ("exploration", "runtime monitor: prefix oracle over ALL bytes returned (also after an error) on streams damaged only inside block payloads located by the independent container parser",
+         "13 checksummed streams (codec pairs, checksum 32/64, headerless, 1 MiB blocks) are damaged inside block payloads only: every payload bit of two small NONE/NONE streams (exhaustive), plus ~150 (quick) random bit flips / byte substitutions / swaps / zeroed runs per stream, in one or several blocks, biased to the in-block header, the stored checksum and the last bytes; stored checksums are also exchanged between blocks (content differs from what was hashed). The reader (jobs 1-4, varying buffer sizes) keeps calling Read up to 64 times after the first error; the concatenation of everything returned must be a prefix of the original and clean EOF implies equality.",
+         "32-bit checksums legitimately pass 2^-32 of random damage (< 10^-4 per run). Whole self-consistent payloads exchanged between blocks are not generated (the format hashes content only).", "DESIGN.md §3 C02"),
  "C06": ("exploration", "runtime monitor: differential oracle (chunked vs all-at-once I/O) at the stream API and lock-step bit-vector model over chunked sources at the bitstream API",
          "The same valid streams are decoded through io.Readers delivering short reads (fixed 1..262145-byte chunks, random sizes, pipe-like, data+EOF together), with arbitrary Read buffer length sequences (incl. 0/1), and the same data is written with arbitrary Write partitions; results must equal the all-at-once run byte for byte. 4 000 (quick) bit-level programs are replayed on DefaultInputBitStream over chunked sources against the bit-vector model. Exploration over sampled partitions.",
          "Sources obey the io.Reader contract and never return (0, nil).", "DESIGN.md §3 C06"),
